@@ -107,7 +107,8 @@ Check(r) ==
          ELSE IF r.res = "ok" /\ ~a THEN Flag(r, "accept.invalid")
          ELSE IF r.res = "err" /\ a THEN Flag(r, "reject.valid")
          ELSE IF (r.res = "ok") # b.ok THEN Flag(r, "verdict")
-         ELSE IF ~b.ok THEN TRUE
+         \* both reject: are the locations the same?  (a private detail: reported as err.spans, owned by no property)
+         ELSE IF ~b.ok THEN (IF b.at # r.err_spans THEN Flag(r, "err.spans") ELSE TRUE)
          ELSE IF b.header # r.dump.signals THEN Flag(r, "ast.header")
          ELSE IF NoLines(b.stmts) # NoLines(r.dump.stmts) THEN Flag(r, "ast")
          ELSE IF b.stmts # r.dump.stmts THEN Flag(r, "ast.lines")
